@@ -356,6 +356,15 @@ def run_case(ctx, kind, rng, idx):
                                 '%s result shares memory with operand' % o))
                 bad += same_struct(ctx, res, mres, '%s(%s)' % (o, other))
                 ctx.count('operator_results_checked')
+                if op != 'aug' and type(res).__name__ == 'RaggedArray' and \
+                        len(rows) > 1 and step % 3 == 0:
+                    # editing the result (its bookkeeping included) must not
+                    # reach the operands
+                    res.lengths[...] = res.lengths[::-1].copy()
+                    res._data[...] = 0
+                    bad += [(k_.replace('ra.view', 'ra.operator.result-aliases'
+                                        '-operand'), m_) for k_, m_ in
+                            observe(ctx, a, rows, 'edit of operator result')]
                 if op == 'aug':
                     old = a
                     old_rows = rows
@@ -377,7 +386,12 @@ def run_case(ctx, kind, rng, idx):
                 (side,) = args
                 flat = np.concatenate(rows)
                 lens = [len(r) for r in rows]
-                b = R(flat, lengths=lens)          # copy=True default
+                lens_arr = np.array(lens)
+                b = R(flat, lengths=lens_arr if step % 2 else lens)
+                if step % 2:
+                    # the caller recycles its lengths buffer afterwards
+                    lens_arr[...] = 1
+                    lens_arr[0] = sum(lens) - (len(lens) - 1)
                 if side == 'src':
                     flat[...] = -7
                     bad += [(k_.replace('ra.view', 'ra.copy.aliases-source'),
